@@ -2,7 +2,9 @@ package govc
 
 import (
 	"fmt"
+	"go/constant"
 	"go/types"
+	"strconv"
 	"strings"
 
 	"golang.org/x/tools/go/ssa"
@@ -121,7 +123,12 @@ func (env *Env) eval(x Expr) Val {
 	case *EInt:
 		return Val{T: intLit(n.V), Ty: tInt}
 	case *EFloat:
-		return Val{T: "(fin " + n.V + ")", Ty: tFloat}
+		// a float literal in a contract denotes the same float64 value the Go literal would
+		f, err := strconv.ParseFloat(n.V, 64)
+		if err != nil {
+			fail("bad float literal %s", n.V)
+		}
+		return Val{T: "(fin " + ratLit(constant.MakeFloat64(f)) + ")", Ty: tFloat}
 	case *EStr:
 		return Val{T: strLit(n.V), Ty: tString}
 	case *EBool:
